@@ -728,10 +728,20 @@ def sweep(im, U, found, gone=()):
                     found("removed-peer-returned/%s" % QNAME[q[0]], "%s returned removed peer %d" % (QNAME[q[0]], c.obj(i)[0]))
     for k in gone:
         c = im.clone()
+        # removal forgets the peer altogether - its advertisements too, whether or not it was verified at
+        # that moment (seed C12h: the clean-up of services_per_peer moved under `if peer in verified_peers`)
+        r, _ = c.apply(("svcs_for", k))
+        if r[1]:
+            found("removed/services-remembered", "peer %d was removed and get_services_for_peer still lists %s" % (k, r[1]))
         free = [a for a in U[1] if a not in c.bl_addr]
         if k in c.bl_mid or not free:
             continue
         c.apply(("add", k, am_of(free[0])))
+        for s in U[2]:
+            r, _ = c.apply(("peers_for", s))
+            if any(c.obj(i)[0] == k for i in r[1]):
+                found("readd/stale-service", "peer %d was removed and added again without advertising anything: "
+                      "get_peers_for_service(%d) returns it" % (k, s))
         if not Auth(c).by_key(keys(k)[k - 1].key_to_bin()):
             found("readd/refused", "peer %d was removed and add_verified_peer does not verify it again" % k)
         r, _ = c.apply(("by_key", k))
